@@ -1314,3 +1314,360 @@ Proof.
     f_equal. f_equal; [congruence|].
     unfold mkst. f_equal. unfold o, k. lia.
 Qed.
+
+(* ------------------------------------------------------------------ no panic, reader side *)
+
+Section NoPanic.
+  Variables (be dbg : bool) (rl : relocator) (sec : list byte) (base : N).
+  Hypothesis Hrl1 : forall pos v, rl_addr rl pos v <> Panic.
+  Hypothesis Hrl2 : forall pos v, rl_off rl pos v <> Panic.
+
+  (* reachable states: the inner reader's window lies inside the section *)
+  Definition rinv (x : rrd) : Prop :=
+    exists o l, (o + l <= length sec)%nat /\ x = mkRrd (mkRd base sec) (mkst base sec o l).
+
+  Definition np {A} (r : res (A * rrd)) : Prop :=
+    match r with Ok (_, x') => rinv x' | Panic => False | _ => True end.
+
+  Lemma np_tbind {V A} (t : tres (V * rrd)) (g : V * rrd -> tres (A * rrd)) :
+    np (snd t) -> (forall v x', rinv x' -> np (snd (g (v, x')))) -> np (snd (tbind t g)).
+  Proof.
+    intros H1 H2. unfold tbind. destruct t as [tr [[v x']|e| |]]; cbn [fst snd np] in *; auto.
+  Qed.
+
+  Lemma np_plain {A} (f : list byte -> res (A * list byte)) x :
+    prefix_det f -> (forall w, f w <> Panic) -> rinv x -> np (snd (rr_plain f x)).
+  Proof.
+    intros Hf Hnp (o & l & Hb & ->). unfold rr_plain. cbn [reader section].
+    destruct (f (slice sec o l)) as [[v rest]|e| |] eqn:Ef.
+    - destruct (Hf _ _ _ Ef) as (c & Hc & -> & _). rewrite slice_length in Hc by auto.
+      rewrite (rd_lift_mkst [] base f sec o l v c Hb Hc Ef). cbn [snd np].
+      exists (o + c)%nat, (l - c)%nat. split; auto. lia.
+    - unfold rd_lift, mkst. cbn [win]. rewrite Ef. cbn. exact I.
+    - exfalso. eapply Hnp; eauto.
+    - unfold rd_lift, mkst. cbn [win]. rewrite Ef. cbn. exact I.
+  Qed.
+
+  Lemma np_rel w (f : list byte -> res (N * list byte)) hook x :
+    sized_reader be w f -> (forall pos v, hook pos v <> Panic) -> rinv x ->
+    np (snd (rr_rel dbg w f hook x)).
+  Proof.
+    intros Hs Hh (o & l & Hb & ->). unfold rr_rel. cbn [reader section].
+    rewrite (offset_from_mkst dbg [] sec base o l Hb).
+    destruct Hs as [(k & Hk & Hw & Hfk)|(e & He)].
+    - destruct (Nat.le_gt_cases k l) as [Hkl|Hkl].
+      + rewrite (rd_lift_mkst [] base f sec o l (dec_un be (slice sec o k)) k Hb Hkl)
+          by (rewrite Hfk; now apply (read_un_slice be [])).
+        cbn [snd]. specialize (Hh (N.of_nat o) (dec_un be (slice sec o k))).
+        destruct (hook (N.of_nat o) (dec_un be (slice sec o k))); cbn [bind np]; auto.
+        exists (o + k)%nat, (l - k)%nat. split; auto. lia.
+      + unfold rd_lift, mkst. cbn [win]. rewrite Hfk, (read_un_slice_eof be []) by auto. cbn. exact I.
+    - unfold rd_lift. rewrite He. cbn. exact I.
+  Qed.
+
+  Lemma read_un_no_panic n w : read_un n be w <> Panic.
+  Proof. rewrite read_un_spec. destruct (n <=? length w)%nat; discriminate. Qed.
+
+  Lemma read_word_no_panic f w : read_word f be w <> Panic.
+  Proof. unfold read_word. destruct f; apply read_un_no_panic. Qed.
+
+  Lemma reloc_rd_no_panic {A} (p : prog A) : forall x,
+    rinv x -> np (snd (run_reloc_rd be dbg rl p x)).
+  Proof.
+    induction p as [a|e| |n k IH|k IH|k IH|n k IH|k IH|size k IH|f k IH|size k IH|f k IH|len sub IHs k IHk];
+      intros x Hx; cbn [run_reloc_rd].
+    - cbn. exact Hx.
+    - cbn. exact I.
+    - cbn. exact I.
+    - apply np_tbind; [apply np_plain; auto|intros; apply IH; auto].
+      + apply prefix_det_read_un.
+      + apply read_un_no_panic.
+    - apply np_tbind; [apply np_plain; auto|intros; apply IH; auto].
+      + apply prefix_det_uleb.
+      + intros w. apply read_uleb128_total.
+    - apply np_tbind; [apply np_plain; auto|intros; apply IH; auto].
+      + apply prefix_det_sleb.
+      + intros w. apply read_sleb128_total.
+    - destruct Hx as (o & l & Hb & ->). cbn [reader section].
+      rewrite (rd_skip_mkst [] base sec o l n Hb).
+      destruct (N.ltb_spec (N.of_nat l) n).
+      + cbn. exact I.
+      + unfold tbind, tret. cbn [fst snd bind]. apply IH.
+        exists (o + N.to_nat n)%nat, (l - N.to_nat n)%nat. split; auto. lia.
+    - apply IH; auto.
+    - apply np_tbind; [apply np_rel; auto|intros; apply IH; auto]. apply sized_read_address.
+    - apply np_tbind; [apply np_rel; auto|intros; apply IH; auto]. apply sized_read_word.
+    - apply np_tbind; [apply np_rel; auto|intros; apply IH; auto]. apply sized_read_sized_offset.
+    - apply np_tbind; [apply np_plain; auto|intros; apply IH; auto].
+      + apply prefix_det_read_word.
+      + apply read_word_no_panic.
+    - destruct Hx as (o & l & Hb & ->). unfold rr_split. cbn [reader section].
+      rewrite (rd_truncate_mkst [] base sec o l len Hb), (rd_skip_mkst [] base sec o l len Hb).
+      destruct (N.ltb_spec (N.of_nat l) len).
+      + cbn. exact I.
+      + cbn [bind]. unfold tbind at 1. unfold tret. cbn [fst snd].
+        apply np_tbind.
+        * apply IHs. exists o, (N.to_nat len). split; auto. lia.
+        * intros a x'' _. apply IHk.
+          exists (o + N.to_nat len)%nat, (l - N.to_nat len)%nat. split; auto. lia.
+  Qed.
+End NoPanic.
+
+Lemma reloc_rd_no_panic_lemma : forall (A : Type) (be dbg : bool) (rl : relocator) (p : prog A) (bs : list byte) (base : N),
+  (forall pos v, rl_addr rl pos v <> Panic) -> (forall pos v, rl_off rl pos v <> Panic) ->
+  snd (run_reloc_rd be dbg rl p (rrd_new (mkRd base bs))) <> Panic.
+Proof.
+  intros A be dbg rl p bs base H1 H2 Hp.
+  assert (Hx : rinv bs base (rrd_new (mkRd base bs))).
+  { exists 0%nat, (length bs). split; auto. unfold rrd_new. now rewrite mkst_whole. }
+  pose proof (reloc_rd_no_panic be dbg rl bs base H1 H2 p _ Hx) as Hn.
+  rewrite Hp in Hn. exact Hn.
+Qed.
+
+(* ------------------------------------------------------------------ no panic, writer side *)
+
+Definition is_okb {A} (r : res A) : Prop := exists a, r = Ok a.
+
+Lemma write_uleb_fuel_S f v :
+  write_uleb_fuel (S f) v =
+  if N.shiftr v 7 =? 0 then Ok [n2b (low7 (N.land v 255))]
+  else let* rest := write_uleb_fuel f (N.shiftr v 7) in Ok (n2b (N.lor (low7 (N.land v 255)) CONT) :: rest).
+Proof. reflexivity. Qed.
+
+Lemma write_sleb_fuel_S f z :
+  write_sleb_fuel (S f) z =
+  if ((Z.shiftr z 6 =? 0) || (Z.shiftr z 6 =? -1))%Z then Ok [n2b (N.land (Z.to_N (z mod 256)%Z) 127)]
+  else let* rest := write_sleb_fuel f (Z.shiftr (Z.shiftr z 6) 1) in
+       Ok (n2b (N.lor (Z.to_N (z mod 256)%Z) CONT) :: rest).
+Proof. reflexivity. Qed.
+
+Lemma write_uleb_fuel_ok : forall f v, v < 2 ^ (7 * N.of_nat (S f)) -> is_okb (write_uleb_fuel (S f) v).
+Proof.
+  induction f as [|f IH]; intros v Hv; rewrite write_uleb_fuel_S.
+  - rewrite N.shiftr_div_pow2. change (2 ^ 7) with 128. change (2 ^ (7 * N.of_nat 1)) with 128 in Hv.
+    destruct (N.eqb_spec (v / 128) 0) as [E|E]; [eexists; reflexivity|]. exfalso. lia.
+  - rewrite N.shiftr_div_pow2. change (2 ^ 7) with 128.
+    destruct (N.eqb_spec (v / 128) 0) as [E|E]; [eexists; reflexivity|].
+    assert (Hv' : v / 128 < 2 ^ (7 * N.of_nat (S f))).
+    { replace (7 * N.of_nat (S (S f))) with (7 + 7 * N.of_nat (S f)) in Hv by lia.
+      rewrite N.pow_add_r in Hv. change (2 ^ 7) with 128 in Hv.
+      set (M := 2 ^ (7 * N.of_nat (S f))) in *.
+      apply N.div_lt_upper_bound; lia. }
+    destruct (IH _ Hv') as [a Ha]. rewrite Ha. eexists; reflexivity.
+Qed.
+
+Lemma write_uleb128_ok v : v < two64 -> is_okb (write_uleb128 v).
+Proof.
+  intros H. unfold write_uleb128. apply write_uleb_fuel_ok.
+  eapply N.lt_le_trans; [exact H|]. unfold two64. cbn. lia.
+Qed.
+
+Lemma write_sleb_fuel_ok : forall f z,
+  (- 2 ^ (7 * Z.of_nat f + 6) <= z < 2 ^ (7 * Z.of_nat f + 6))%Z -> is_okb (write_sleb_fuel (S f) z).
+Proof.
+  induction f as [|f IH]; intros z Hz; rewrite write_sleb_fuel_S.
+  - rewrite Z.shiftr_div_pow2 by lia. change (2 ^ 6)%Z with 64%Z.
+    change (2 ^ (7 * Z.of_nat 0 + 6))%Z with 64%Z in Hz.
+    destruct (Z.eqb_spec (z / 64) 0) as [E|E]; [eexists; reflexivity|].
+    destruct (Z.eqb_spec (z / 64) (-1)) as [E1|E1]; [eexists; reflexivity|].
+    exfalso. lia.
+  - rewrite !Z.shiftr_div_pow2 by lia. change (2 ^ 6)%Z with 64%Z. change (2 ^ 1)%Z with 2%Z.
+    destruct (Z.eqb_spec (z / 64) 0) as [E|E]; [eexists; reflexivity|].
+    destruct (Z.eqb_spec (z / 64) (-1)) as [E1|E1]; [eexists; reflexivity|].
+    cbn [orb].
+    assert (Hz' : (- 2 ^ (7 * Z.of_nat f + 6) <= z / 64 / 2 < 2 ^ (7 * Z.of_nat f + 6))%Z).
+    { replace (7 * Z.of_nat (S f) + 6)%Z with (7 + (7 * Z.of_nat f + 6))%Z in Hz by lia.
+      rewrite Z.pow_add_r in Hz by lia. change (2 ^ 7)%Z with 128%Z in Hz.
+      assert (0 < 2 ^ (7 * Z.of_nat f + 6))%Z by (apply Z.pow_pos_nonneg; lia).
+      set (M := (2 ^ (7 * Z.of_nat f + 6))%Z) in *. lia. }
+    destruct (IH _ Hz') as [a Ha]. rewrite Ha. eexists; reflexivity.
+Qed.
+
+Lemma to_i64_range v : (- 2 ^ 63 <= to_i64 v < 2 ^ 63)%Z.
+Proof.
+  unfold to_i64, to_signed, wrapN. change (2 ^ 64) with 18446744073709551616.
+  change (2 ^ (64 - 1)) with 9223372036854775808. change (2 ^ 63)%Z with 9223372036854775808%Z.
+  destruct (N.ltb_spec (v mod 18446744073709551616) 9223372036854775808); lia.
+Qed.
+
+Lemma write_sleb128_i64_ok v : is_okb (write_sleb128 (to_i64 v)).
+Proof.
+  unfold write_sleb128. apply (write_sleb_fuel_ok 9).
+  pose proof (to_i64_range v) as H. change (2 ^ (7 * Z.of_nat 9 + 6))%Z with (2 ^ 69)%Z.
+  change (2 ^ 63)%Z with 9223372036854775808%Z in H. change (2 ^ 69)%Z with 590295810358705651712%Z. lia.
+Qed.
+
+Lemma write_udata_no_panic be v size : write_udata be v size <> Panic.
+Proof.
+  unfold write_udata.
+  destruct (size =? 1); [destruct (v <? 256); discriminate|].
+  destruct (size =? 2); [destruct (v <? two16); discriminate|].
+  destruct (size =? 4); [destruct (v <? two32); discriminate|].
+  destruct (size =? 8); discriminate.
+Qed.
+
+Lemma write_sdata_no_panic be z size : write_sdata be z size <> Panic.
+Proof.
+  unfold write_sdata.
+  destruct (size =? 1); [destruct (in_signed 8 z); discriminate|].
+  destruct (size =? 2); [destruct (in_signed 16 z); discriminate|].
+  destruct (size =? 4); [destruct (in_signed 32 z); discriminate|].
+  destruct (size =? 8); discriminate.
+Qed.
+
+Lemma eh_pointer_data_no_panic be v fmt size : v < two64 -> eh_pointer_data be v fmt size <> Panic.
+Proof.
+  intros Hv. unfold eh_pointer_data.
+  destruct (fmt =? 0); [apply write_udata_no_panic|].
+  destruct (fmt =? 1); [destruct (write_uleb128_ok v Hv) as [a ->]; discriminate|].
+  destruct (fmt =? 2); [apply write_udata_no_panic|].
+  destruct (fmt =? 3); [apply write_udata_no_panic|].
+  destruct (fmt =? 4); [apply write_udata_no_panic|].
+  destruct (fmt =? 9); [destruct (write_sleb128_i64_ok v) as [a ->]; discriminate|].
+  destruct (fmt =? 10); [apply write_sdata_no_panic|].
+  destruct (fmt =? 11); [apply write_sdata_no_panic|].
+  destruct (fmt =? 12); [apply write_sdata_no_panic|].
+  discriminate.
+Qed.
+
+(* well-typedness of a script: the u64 argument of a constant eh pointer is a u64 *)
+Definition wop_u64 (op : wop) : Prop :=
+  match op with WEhPtr (AConst v) _ _ => v < two64 | _ => True end.
+
+Lemma bind_no_panic {A B} (r : res A) (f : A -> res B) :
+  r <> Panic -> (forall a, f a <> Panic) -> bind r f <> Panic.
+Proof. destruct r; cbn; auto; intros; discriminate. Qed.
+
+Lemma ev_write_at_no_panic buf pos bs : ev_write_at buf pos bs <> Panic.
+Proof. unfold ev_write_at. destruct (_ <? _); [discriminate|]. destruct (_ <? _); discriminate. Qed.
+
+Lemma wsub64_lt a b : wsub64 a b < two64.
+Proof. unfold wsub64. apply wrap64_lt. Qed.
+
+Lemma eh_plain_no_panic be len a eh size :
+  (match a with AConst v => v < two64 | _ => True end) -> eh_plain be len a eh size <> Panic.
+Proof.
+  intros H. unfold eh_plain. destruct a as [v|s ad]; [|discriminate].
+  destruct (_ =? 0); [now apply eh_pointer_data_no_panic|].
+  destruct (_ =? 16); [apply eh_pointer_data_no_panic; apply wsub64_lt|discriminate].
+Qed.
+
+Lemma step_plain_no_panic be op buf : wop_u64 op -> step_plain be op buf <> Panic.
+Proof.
+  intros Hw. destruct op as [bs|pos bs|v size|pos v size|a size|v sect size|pos v sect size|a eh size|sym size];
+    cbn [step_plain]; try discriminate.
+  - apply ev_write_at_no_panic.
+  - unfold ev_udata. apply bind_no_panic; [apply write_udata_no_panic|discriminate].
+  - unfold ev_udata_at. apply bind_no_panic; [apply write_udata_no_panic|intros; apply ev_write_at_no_panic].
+  - destruct a; [|discriminate].
+    unfold ev_udata. apply bind_no_panic; [apply write_udata_no_panic|discriminate].
+  - unfold ev_udata. apply bind_no_panic; [apply write_udata_no_panic|discriminate].
+  - unfold ev_udata_at. apply bind_no_panic; [apply write_udata_no_panic|intros; apply ev_write_at_no_panic].
+  - apply bind_no_panic; [|discriminate]. apply eh_plain_no_panic. destruct a; auto.
+Qed.
+
+Lemma step_reloc_no_panic be op st : wop_u64 op -> step_reloc be op st <> Panic.
+Proof.
+  intros Hw. destruct st as [buf rs].
+  destruct op as [bs|pos bs|v size|pos v size|a size|v sect size|pos v sect size|a eh size|sym size];
+    cbn [step_reloc];
+    try (apply bind_no_panic; [now apply step_plain_no_panic|discriminate]).
+  - destruct a.
+    + apply bind_no_panic; [now apply step_plain_no_panic|discriminate].
+    + unfold ev_udata. apply bind_no_panic; [|discriminate].
+      apply bind_no_panic; [apply write_udata_no_panic|discriminate].
+  - unfold ev_udata. apply bind_no_panic; [|discriminate].
+    apply bind_no_panic; [apply write_udata_no_panic|discriminate].
+  - unfold ev_udata_at. apply bind_no_panic; [|discriminate].
+    apply bind_no_panic; [apply write_udata_no_panic|intros; apply ev_write_at_no_panic].
+  - destruct a.
+    + apply bind_no_panic; [now apply step_plain_no_panic|discriminate].
+    + apply bind_no_panic.
+      * unfold eh_sym_size. repeat (destruct (_ || _) || destruct (_ =? _)); discriminate.
+      * intros sz. unfold ev_udata. apply bind_no_panic; [|discriminate].
+        apply bind_no_panic; [apply write_udata_no_panic|discriminate].
+Qed.
+
+Lemma run_plain_no_panic be : forall ws buf, Forall wop_u64 ws -> run_plain be ws buf <> Panic.
+Proof.
+  induction ws as [|op ws IH]; intros buf H; cbn [run_plain]; [discriminate|].
+  inversion H; subst. apply bind_no_panic; [now apply step_plain_no_panic|auto].
+Qed.
+
+Lemma run_reloc_no_panic be : forall ws st, Forall wop_u64 ws -> run_reloc be ws st <> Panic.
+Proof.
+  induction ws as [|op ws IH]; intros st H; cbn [run_reloc]; [discriminate|].
+  inversion H; subst. apply bind_no_panic; [now apply step_reloc_no_panic|auto].
+Qed.
+
+Lemma resolve_u64 env op : wop_u64 op -> wop_u64 (resolve env op).
+Proof.
+  destruct op as [bs|pos bs|v size|pos v size|a size|v sect size|pos v sect size|a eh size|sym size];
+    cbn [resolve wop_u64]; auto.
+  destruct a as [v|s ad]; cbn [resolve_addr]; auto. intros _. unfold wadd64s. apply wrap64_lt.
+Qed.
+
+Lemma writer_no_panic_lemma : forall (be : bool) (env : target -> N) (ws : list wop),
+  Forall wop_u64 ws ->
+  run_reloc be ws ([], []) <> Panic /\ run_plain be (map (resolve env) ws) [] <> Panic.
+Proof.
+  intros be env ws H. split.
+  - now apply run_reloc_no_panic.
+  - apply run_plain_no_panic. apply Forall_forall. intros op Hop.
+    apply in_map_iff in Hop as (op0 & <- & Hin). apply resolve_u64.
+    rewrite Forall_forall in H. auto.
+Qed.
+
+(* ------------------------------------------------------------------ writer and reader composed *)
+
+Lemma apply_rrel_of env be r bs : apply_rrel be (rrel_of env r) bs = apply_reloc env be r bs.
+Proof. reflexivity. Qed.
+
+Lemma apply_rrels_of env be rs : forall bs,
+  apply_rrels be (map (rrel_of env) rs) bs = apply_relocs env be rs bs.
+Proof.
+  unfold apply_rrels, apply_relocs. induction rs as [|r rs IH]; intros bs; cbn [map fold_left]; auto.
+Qed.
+
+Lemma write_read_transparent_lemma :
+  forall (A : Type) (be dbg : bool) (env : target -> N) (ws : list wop) b rs bp (p : prog A) (base : N),
+  no_clobber be ws ([], []) = true ->
+  run_reloc be ws ([], []) = Ok (b, rs) ->
+  run_plain be (map (resolve env) ws) [] = Ok bp ->
+  let R := map (rrel_of env) rs in
+  sites_disjointb R = true ->
+  trace_ok R (fst (run_reloc_rd be dbg (map_relocator R) p (rrd_new (mkRd base b)))) ->
+  out_reloc (snd (run_reloc_rd be dbg (map_relocator R) p (rrd_new (mkRd base b)))) =
+  out_plain (mkRd base bp) (run_plain_rd be dbg p (mkRd base bp)).
+Proof.
+  intros A be dbg env ws b rs bp p base Hnc Hr Hp R HR Ht.
+  destruct (reloc_write_transparent_lemma be env ws b rs bp Hnc Hr Hp) as [Happ _].
+  rewrite <- Happ, <- (apply_rrels_of env be rs b). fold R.
+  apply parser_reloc_lemma; auto.
+Qed.
+
+(* ------------------------------------------------------------------ instances for the two model parsers *)
+
+Lemma parser_reloc_b_lemma : forall (A : Type) (be dbg : bool) (R : list rrel) (p : prog A) (bs : list byte) (base : N),
+  sites_disjointb R = true ->
+  trace_okb R (fst (run_reloc_rd be dbg (map_relocator R) p (rrd_new (mkRd base bs)))) = true ->
+  out_reloc (snd (run_reloc_rd be dbg (map_relocator R) p (rrd_new (mkRd base bs)))) =
+  out_plain (mkRd base (apply_rrels be R bs))
+            (run_plain_rd be dbg p (mkRd base (apply_rrels be R bs))).
+Proof. intros. apply parser_reloc_lemma; auto. now apply trace_okb_ok. Qed.
+
+Lemma parser_reloc_unit_header_lemma : forall (be dbg types : bool) (R : list rrel) (bs : list byte) (base : N),
+  sites_disjointb R = true ->
+  trace_okb R (fst (run_reloc_rd be dbg (map_relocator R) (p_unit_header types) (rrd_new (mkRd base bs)))) = true ->
+  out_reloc (snd (run_reloc_rd be dbg (map_relocator R) (p_unit_header types) (rrd_new (mkRd base bs)))) =
+  out_plain (mkRd base (apply_rrels be R bs))
+            (run_plain_rd be dbg (p_unit_header types) (mkRd base (apply_rrels be R bs))).
+Proof. intros. now apply parser_reloc_b_lemma. Qed.
+
+Lemma parser_reloc_raw_ranges_lemma : forall (be dbg : bool) (fuel : nat) (asz : N) (R : list rrel) (bs : list byte) (base : N),
+  sites_disjointb R = true ->
+  trace_okb R (fst (run_reloc_rd be dbg (map_relocator R) (p_raw_ranges fuel asz []) (rrd_new (mkRd base bs)))) = true ->
+  out_reloc (snd (run_reloc_rd be dbg (map_relocator R) (p_raw_ranges fuel asz []) (rrd_new (mkRd base bs)))) =
+  out_plain (mkRd base (apply_rrels be R bs))
+            (run_plain_rd be dbg (p_raw_ranges fuel asz []) (mkRd base (apply_rrels be R bs))).
+Proof. intros. now apply parser_reloc_b_lemma. Qed.
